@@ -4,7 +4,9 @@ SEED="$1"; TIER="$2"; shift 2
 cd /verif
 if ! git -C /repo diff --quiet; then echo "/repo has uncommitted changes; refusing"; exit 2; fi
 git -C /repo apply /verif/seeded/$SEED/patch.diff || { echo "patch does not apply"; exit 2; }
-trap 'git -C /repo checkout -- . ; git -C /repo status --short | head -3' EXIT
+# evidence written while a seeded change is applied must never be committed: the tracked files are put back afterwards
+EVBK=$(mktemp -d /var/tmp/evbk.XXXXXX); cp -a /verif/evidence/. $EVBK/
+trap 'git -C /repo checkout -- . ; git -C /repo status --short | head -3; cp -a $EVBK/. /verif/evidence/; rm -rf $EVBK' EXIT
 for id in "$@"; do
   start=$(date +%s)
   out=$(./run.sh "$id" "$TIER" 2>&1); rc=$?
